@@ -17,6 +17,7 @@ import RpyModel.Drv.C12
 import RpyModel.Drv.C11
 import RpyModel.Drv.C13
 import RpyModel.Drv.C14
+import RpyModel.Drv.C16
 open Lean
 
 def dispatch (R : Type) [Num R] [Inhabited R] [NatCast R] (kind : String) (j : Json) : Except String Json :=
@@ -47,6 +48,8 @@ def dispatch (R : Type) [Num R] [Inhabited R] [NatCast R] (kind : String) (j : J
   | "matgen_struct" => Drv.handleMatgenStruct j
   | "matgen_partial" => Drv.handleMatgenPartial j
   | "seeds" => Drv.handleSeeds j
+  | "compat_run" => Drv.handleCompatRun R j
+  | "names_history" => Drv.handleNamesHistory j
   | _ => throw s!"unknown kind {kind}"
 
 def handle (line : String) : String :=
